@@ -3,7 +3,7 @@ import os
 import re
 from typing import Dict, Optional, List, Tuple
 
-from sympy import Eq, sympify, expand
+from sympy import Eq, sympify, expand, solve
 from sympy import symbols, simplify, Expr, Add, Mul, Pow, Symbol, Float
 from sympy.core.numbers import Zero, NegativeOne, One, Integer, Rational, Half
 from sympy.logic.boolalg import BooleanTrue
@@ -334,7 +334,23 @@ def simplify_inequality(
         lhs, rhs = assumption_expression.split("=")
         lhs = simplify(sympify(lhs))
         rhs = simplify(sympify(rhs))
+        # substituting a single variable - replacing a compound pattern (e.g., x + y) inside the unevaluated
+        # expressions matches only some of its occurrences and may change the meaning of the inequality.
+        eliminated_variables = sorted(lhs.free_symbols, key=str)
+        solutions = (
+            solve(Eq(lhs, rhs), eliminated_variables[0])
+            if len(eliminated_variables) > 0
+            else []
+        )
+        if len(solutions) == 1:
+            left_expr = left_expr.subs(eliminated_variables[0], solutions[0])
+            right_expr = right_expr.subs(eliminated_variables[0], solutions[0])
+            continue
+
         assumption = simplify(Eq(lhs, rhs))
+        if not isinstance(assumption, Eq):
+            continue
+
         left_expr = left_expr.subs(assumption.lhs, assumption.rhs)
         right_expr = right_expr.subs(assumption.lhs, assumption.rhs)
 
